@@ -92,9 +92,13 @@ def sampler_orders(ck, recs, data, max_points=3):
 
     class StubSMC:
         def __init__(self, *a, **k):
+            tkey = None
+            for x in list(a) + list(k.values()):
+                if hasattr(x, "labels") and hasattr(x, "outliers"):
+                    tkey = absstate.quick_key(x)
             for x in list(a) + list(k.values()):
                 if isinstance(x, (list, tuple)) and x and all(hasattr(dp, "idx") for dp in x):
-                    raise _Captured(tuple(dp.idx for dp in x))
+                    raise _Captured((tkey, tuple(dp.idx for dp in x)))
             raise _Captured(None)
 
     saved = (unc.SMCSampler, pg.ConditionalSMCSampler)
@@ -102,15 +106,21 @@ def sampler_orders(ck, recs, data, max_points=3):
     pg.ConditionalSMCSampler = StubSMC
     todo = [rec for rec in recs if absstate.data_ids(absstate.canon(rec["st"])) and len(absstate.data_ids(absstate.canon(rec["st"]))) <= max_points]
 
+    orders_of = {absstate.canon(r_["st"]): {tuple(o) for o in r_["orders"]} for r_ in recs}
+
     def task(rec):
         key = absstate.canon(rec["st"])
-        orders = {tuple(o) for o in rec["orders"]}
         out = []
         nev = 0
-        for which in ("burn-in", "particle Gibbs"):
+        for which in ("burn-in", "particle Gibbs", "subtree particle Gibbs"):
             rng = EnumRNG()
             kern = types.SimpleNamespace(rng=rng)
-            sampler = unc.UnconditionalSMCSampler(kern, num_particles=2) if which == "burn-in" else pg.ParticleGibbsTreeSampler(kern, rng, num_particles=2)
+            if which == "burn-in":
+                sampler = unc.UnconditionalSMCSampler(kern, num_particles=2)
+            elif which == "particle Gibbs":
+                sampler = pg.ParticleGibbsTreeSampler(kern, rng, num_particles=2)
+            else:
+                sampler = pg.ParticleGibbsSubtreeSampler(kern, rng, num_particles=2)
 
             def go():
                 t = absstate.build(key, data)
@@ -126,16 +136,25 @@ def sampler_orders(ck, recs, data, max_points=3):
             for res, p, _ in enumerate_paths(go, rng):
                 law[res] = law.get(res, 0.0) + p
             nev += len(law)
-            rep = {"state": absstate.to_json(key), "sampler": which, "expected_orders": sorted(orders)}
             if None in law:
                 out.append(("note", "the %s sampler no longer builds its SMC pass through the captured class: order law not checked" % which, None))
                 continue
-            if set(law) != orders:
-                out.append(("C09|sampler_order|support|%s" % which.replace(" ", "_"), "the %s sampler hands its SMC pass orders outside / not covering the compatible orders of %s: extra %s missing %s" % (
-                    which, absstate.key_str(key), sorted(set(law) - orders)[:3], sorted(orders - set(law))[:3]), rep))
-            elif max(abs(p - 1.0 / len(orders)) for p in law.values()) > 1e-12:
-                out.append(("C09|sampler_order|nonuniform|%s" % which.replace(" ", "_"), "the order the %s sampler hands to its SMC pass is not uniform on the compatible orders of %s" % (which, absstate.key_str(key)), rep))
-        return out, nev, len(orders) > 1, absstate.key_str(key)
+            # group by the tree the pass is conditioned on (the whole tree, or the block of the subtree move with the outliers)
+            groups = {}
+            for (tk, order), p in law.items():
+                groups.setdefault(tk if tk is not None else key, {})[order] = p
+            for tk, glaw in groups.items():
+                want = orders_of.get(tk)
+                rep = {"state": absstate.to_json(key), "sampler": which, "pass_tree": absstate.to_json(tk)}
+                if want is None:
+                    continue      # a conditioning tree outside the enumerated universe (not judged)
+                tot = sum(glaw.values())
+                if set(glaw) != want:
+                    out.append(("C09|sampler_order|support|%s" % which.replace(" ", "_"), "the %s sampler hands its SMC pass orders outside / not covering the compatible orders of %s: extra %s missing %s" % (
+                        which, absstate.key_str(tk), sorted(set(glaw) - want)[:3], sorted(want - set(glaw))[:3]), rep))
+                elif max(abs(p / tot - 1.0 / len(want)) for p in glaw.values()) > 1e-12:
+                    out.append(("C09|sampler_order|nonuniform|%s" % which.replace(" ", "_"), "the order the %s sampler hands to its SMC pass is not uniform on the compatible orders of %s" % (which, absstate.key_str(tk)), rep))
+        return out, nev, len(orders_of[key]) > 1, absstate.key_str(key)
 
     try:
         from .. import kernels
@@ -153,6 +172,47 @@ def sampler_orders(ck, recs, data, max_points=3):
                 ck.nontrivial("sampler_order:" + ks)
     finally:
         unc.SMCSampler, pg.ConditionalSMCSampler = saved
+
+
+def retained_path_pdf(ck, recs, data, max_points):
+    """The permutation log-density every particle of a retained (conditional) SMC path carries must be minus the log of
+    the number of orders compatible with the partial tree it holds (TLC's count) - with and without outliers."""
+    import numpy as np
+    from phyclone.smc.samplers import ConditionalSMCSampler
+    from phyclone.smc.kernels import SemiAdaptedKernel, BootstrapKernel
+    from phyclone.smc.utils import RootPermutationDistribution
+    from phyclone.tree import FSCRPDistribution, TreeJointDistribution
+    counts = {absstate.canon(r_["st"]): r_["count"] for r_ in recs}
+    rng = np.random.default_rng(5)
+    td = TreeJointDistribution(FSCRPDistribution(1.0))
+    n_checked = 0
+    for key in sorted(counts, key=absstate.key_str):
+        ids = sorted(absstate.data_ids(key))
+        if len(ids) < 2 or len(ids) > max_points or ids != list(range(len(ids))):
+            continue
+        sub = [dp for dp in data if dp.idx in ids]
+        for Kcls in (SemiAdaptedKernel, BootstrapKernel):
+            tree = absstate.build(key, sub)
+            kern = Kcls(td, rng, outlier_proposal_prob=(0.1 if key[1] else 0.0), perm_dist=RootPermutationDistribution())
+            sigma = RootPermutationDistribution.sample(tree, rng)
+            try:
+                smp = ConditionalSMCSampler(tree, sigma, kern, num_particles=2)
+                path = [p for p in smp.constrained_path if p is not None]
+            except AttributeError:
+                ck.note("the retained path of the conditional SMC sampler is no longer exposed as constrained_path: its permutation densities were not checked")
+                return
+            for p in path:
+                k2 = absstate.quick_key(p.tree)
+                if k2 not in counts:
+                    continue
+                n_checked += 1
+                want = -math.log(counts[k2])
+                if abs(float(p.log_pdf) - want) > 1e-9:
+                    ck.violation("C09|retained_path|log_pdf", "a particle of the retained SMC path holding %s carries the permutation log-density %.12g, -log(number of compatible orders) = %.12g" % (
+                        absstate.key_str(k2), float(p.log_pdf), want), {"tree": absstate.to_json(key), "partial": absstate.to_json(k2), "kernel": Kcls.__name__})
+                    break
+    ck.evaluations += n_checked
+    ck.extra["retained_path_particles_checked"] = n_checked
 
 
 def py_count(key):
@@ -290,6 +350,7 @@ def run(corrupt=None):
     seen2 = set()
     uniq = [r_ for r_ in recs if not (absstate.canon(r_["st"]) in seen2 or seen2.add(absstate.canon(r_["st"])))]
     sampler_orders(ck, uniq, data, max_points=(4 if thorough else 3))
+    retained_path_pdf(ck, uniq, data, max_points=4)
     # histories: the reported density must stay right on trees that were edited in place after earlier queries
     import numpy as np
     from .. import treeadt
